@@ -23,7 +23,7 @@ targets without leading slash, junk and extreme numeric fields, non-UTF-8 and co
 x application in {App, handler returning Err, handler returning a fixed response}, in-process on Server::process over a fixed small docroot. \
 Oracle: no panic/abort (worker supervisor attributes an abort to the in-flight case); exactly one response accepted by M-HTTP with Content-Length == body length (empty body for HEAD/OPTIONS); \
 status >= 400 when the harness's pre-parser says the request line must be rejected or the handler returned Err. \
-A quarter of the production-entry cases with the default buffer and the real application are sent to the release binary over loopback instead of Server::process on the mock transport (same oracle; a server-side panic shows as a connection closed without response bytes). Non-trivial = carries a mutation or hostile field and is not rejected by the first-line check alone; distinct by generated case. Saved corpus files (corpus/c04) are replayed first. Section far-beyond-the-buffer: requests 10 KB to 650 KB longer than the buffer for files of 10 bytes to 3 MiB, all through the real binary (the tail is written while the response is read).",
+A quarter of the production-entry cases with the default buffer and the real application are sent to the release binary over loopback instead of Server::process on the mock transport (same oracle; a server-side panic shows as a connection closed without response bytes). Non-trivial = carries a mutation or hostile field and is not rejected by the first-line check alone; distinct by generated case. Saved corpus files (corpus/c04) are replayed first. Section aborted-before-accept: 0-5 connections reset, 0-3 reset after half a request and 0-3 closed while they wait in the backlog of the stopped binary (1, 2 or 4 workers); afterwards the process runs and a probe gets its one complete response. Section far-beyond-the-buffer: requests 10 KB to 650 KB longer than the buffer for files of 10 bytes to 3 MiB, all through the real binary (the tail is written while the response is read).",
         &["the harness's lenient request-line pre-parser decides only the classes the statement names; lower case, extra blanks, tabs assert totality only",
           "in-process route: process survival is observed as absence of panic/abort of the worker process; the real-binary tier is part of C06"],
         if tier == Tier::Quick { 900 } else { 14400 },
@@ -121,7 +121,40 @@ pub fn run(ctx: &Ctx) {
     // part of the input it never parses (discarding it, closing with it unread) decides whether the one response arrives complete
     ctx.prop("far-beyond-the-buffer", ctx.share(ctx.scale(320, 12_000)), far_case_strategy(), |c| eval(ctx, c));
     super::common::binary_end(ctx);
+    // connections that end before the server has looked at them (reset or closed while they wait in the backlog, some after half a request): the process
+    // keeps running and the next client gets its one complete response
+    { use proptest::prelude::*;
+      let ac = (0u8..6, 0u8..4, 0u8..4, prop::sample::select(vec![1u8, 2, 4]), any::<u8>()).prop_map(|(resets, closes, half_resets, workers, probe)| AbortCase { resets, closes, half_resets, workers, probe });
+      let root = _tree.root.clone();
+      ctx.prop("aborted-before-accept", ctx.share(ctx.scale(160, 8000)), ac, |c| eval_aborted(ctx, &root, c)); }
     std::env::set_current_dir("/").ok();
+}
+
+#[derive(Clone, Debug, serde::Serialize, serde::Deserialize)]
+pub struct AbortCase { pub resets: u8, pub closes: u8, pub half_resets: u8, pub workers: u8, pub probe: u8 }
+
+pub fn eval_aborted(ctx: &Ctx, root: &std::path::Path, c: &AbortCase) -> Verdict {
+    use crate::fw::net::{self, Outcome, Server, ServerOpts};
+    use std::io::Write;
+    let mut srv = match Server::start(&ServerOpts::new(root, c.workers.max(1) as u32)) { Ok(s) => s, Err(e) => { ctx.inconclusive(&format!("real binary did not start: {}", e)); return Verdict::Discard; } };
+    srv.sigstop();
+    for _ in 0..c.resets { if let Ok(s) = srv.connect() { net::reset(s); } }
+    for _ in 0..c.half_resets { if let Ok(mut s) = srv.connect() { let _ = s.write_all(b"GET /a.txt HT"); net::reset(s); } }
+    for _ in 0..c.closes { if let Ok(s) = srv.connect() { drop(s); } }
+    srv.sigcont();
+    let probe: &[u8] = match c.probe % 3 { 0 => b"GET /a.txt HTTP/1.1\r\nHost: localhost\r\n\r\n", 1 => b"GET /missing HTTP/1.1\r\n\r\n", _ => b"HEAD /big.bin HTTP/1.1\r\n\r\n" };
+    let ex = srv.roundtrip(probe, std::time::Duration::from_secs(5));
+    let mut problems = vec![];
+    let what = format!("{} reset, {} reset after half a request, {} closed connection(s) in the backlog of a {}-worker server", c.resets, c.half_resets, c.closes, c.workers.max(1));
+    if let Some(e) = srv.exited() { problems.push(("server-process-gone".to_string(), format!("after {}: the server process ended with {} ({})", what, e, srv.log_tail()))); }
+    else {
+        match (&ex.outcome, mhttp::parse(&ex.bytes)) {
+            (Outcome::TimedOut, _) if ex.bytes.is_empty() => { ctx.inconclusive("probe after aborted connections not answered within 5 s although the process runs"); return Verdict::Discard; }
+            (_, Ok(r)) => { let want = match c.probe % 3 { 0 => 200, 1 => 404, _ => 200 }; if r.status != want { problems.push(("probe-answered-with-wrong-status".to_string(), format!("after {}: status {} where {} is expected", what, r.status, want))); } }
+            (o, Err(p)) => problems.push((format!("probe-not-answered-after-aborted-connections:{}", p.sig), format!("after {}: outcome {:?}, {} bytes", what, o, ex.bytes.len()))),
+        }
+    }
+    ctx.judge(problems, c.resets + c.half_resets + c.closes > 0, vec!["connections-aborted-in-the-backlog"])
 }
 
 fn far_case_strategy() -> impl proptest::strategy::Strategy<Value = ServerCase> {
@@ -176,6 +209,7 @@ pub fn replay(ctx: &Ctx, section: &str, case: &Value) -> Verdict {
     crate::fw::inproc::init_env();
     let _tree = match fixed_docroot() { Ok(t) => t, Err(e) => return Verdict::fail("replay-docroot-failed", e.to_string()) };
     if super::common::replay_wants_binary(case) { super::common::binary_begin(ctx, &_tree.root); }
+    if section == "aborted-before-accept" { return match serde_json::from_value::<AbortCase>(case.clone()) { Ok(c) => eval_aborted(ctx, &_tree.root, &c), Err(e) => Verdict::fail("replay-unreadable", e.to_string()) }; }
     if section == "beside-an-idle-connection" {
         super::common::binary_begin(ctx, &_tree.root);
         let v = match serde_json::from_value::<ServerCase>(case.clone()) { Ok(c) => eval_beside(ctx, &c), Err(e) => Verdict::fail("replay-unreadable", e.to_string()) };
